@@ -112,14 +112,43 @@ def tiny_fine(k):
     return {"id": None, "parts": [part], "groups": None}
 
 
+def tiny_hemiola(k):
+    """a boundary score: a compound meter whose beat (an eighth) is not a whole number of divisions (3 or 5 per quarter)
+    with quarter-based rhythms only, and voices numbered 10 and above (a third staff of an organ part)"""
+    beats = k.choice((6, 6, 12))
+    q = k.choice((3, 5))
+    L = beats * q // 2  # measure length in divisions (6/8 = 3 quarters)
+    nm = k.choice((2, 3))
+    voices = k.choice(((1,), (10,), (1, 12), (9, 10, 11)))
+    skip_first = k.random() < 0.6
+    notes = []
+    for m in range(nm):
+        for vi, v in enumerate(voices):
+            for b in range(beats // 2):
+                if b == 0 and m >= 1 and skip_first:
+                    continue  # the bar begins with a silence: its first note is not on beat 1
+                notes.append({"id": "p1n%d" % (len(notes) + 1), "kind": "note", "t": m * L + b * q, "e": m * L + (b + 1) * q, "voice": v, "staff": 1, "sym": {"type": "quarter", "dots": 0}, "m": m, "g": None, "step": "CDEFGAB"[(b + 2 * vi) % 7], "alter": None, "octave": 3 + vi})
+    part = {
+        "id": "P1", "name": "Part P1", "abbr": None, "qdivs": [[0, q]], "nstaves": 1, "end": nm * L,
+        "measures": [{"s": m * L, "e": (m + 1) * L, "number": m + 1, "name": str(m + 1)} for m in range(nm)],
+        "timesigs": [{"t": 0, "beats": beats, "beat_type": 8}], "keysigs": [{"t": 0, "fifths": -7 if q == 5 else 7, "mode": "major"}],
+        "clefs": [{"t": 0, "staff": 1, "sign": "G", "line": 2, "oct": 0}],
+        "notes": notes, "slurs": [], "tuplets": [], "dirs": [], "tempos": [], "repeats": [], "endings": [], "nav": [], "fermatas": [],
+    }
+    return {"id": None, "parts": [part], "groups": None}
+
+
 def generate(seed, tier, cfg):
     st = R.Streams(seed)
     k, o, f = st.knobs, st.ops, st.faults
     if cfg == "fixture":
         return {"mode": "fixture", "pick": k.randrange(0, 1000), "disturb": {"dup": [o.randrange(0, 10**6) for _ in range(k.choice((0, 1, 3)))], "blank": [o.randrange(0, 10**6) for _ in range(k.choice((0, 1, 2)))]}, "knobs": {"chunk": k.choice((0, 7, 64))}, "ops": [], "faults": []}
     asc = gen.gen_score(st.workload, profile="match", size=gen.pick_size(tier, st.knobs))
-    if k.random() < 0.05:
+    x = k.random()
+    if x < 0.05:
         asc = tiny_fine(k)
+    elif x < 0.09:
+        asc = tiny_hemiola(k)
     # the format stores no measure lengths: what follows the last score note cannot be known, so the
     # final measure must hold a pitched note that ends with it (precondition "complete final measure")
     ap = asc["parts"][0]
